@@ -355,7 +355,7 @@ func main() {
 
 	hash = string(h)
 	auth.AuthService = users{}
-	depth := r.Pick(5, 7)
+	depth := r.Pick(6, 8)
 	cfgs := configs(r.Thorough())
 
 	if len(os.Args) > 3 && os.Args[1] == "cfg" {
